@@ -1503,6 +1503,13 @@ class Interp:
             raise Unsupported("call of %r" % (f,))
 
     def instantiate(self, cls, args, kwargs, st):
+        if cls.__dict__.get("_xmeta", 0) is not None or cls.__dict__.get("_is_xmeta", True):
+            from . import metaclass as _mc
+
+            if _mc.is_executed_meta(self, cls):
+                yield from _mc.call_meta(self, st, cls, args, kwargs)  # Meta(name, bases, attrs): a new class
+                return
+            _mc.ensure(self, st, cls)
         if self.is_exception_class(cls):
             yield st, ExcVal(cls, args)
             return
@@ -1624,7 +1631,10 @@ class Interp:
             raise Unsupported("call depth > %d (recursion without contract?) at %s" % (MAX_DEPTH, q))
         if sum(1 for fr in st.frames if fr.func is not None and fr.func.node is f.node) > 8:
             raise Unsupported("recursion without contract: %s" % q)
-        if any(isinstance(n, (ast.Yield, ast.YieldFrom)) for n in self._walk_own(f.node)):
+        isgen = f.node.__dict__.get("_pyvc_isgen")
+        if isgen is None:  # cached per function node (the body is walked once, not at every call)
+            isgen = f.node._pyvc_isgen = any(isinstance(n, (ast.Yield, ast.YieldFrom)) for n in self._walk_own(f.node))
+        if isgen:
             yield from self.models.call_generator(self, st, f, args, kwargs)
             return
         vars, err = self.bind_args(f, args, kwargs, st)
